@@ -45,7 +45,7 @@ func oracle(c Case, o *h.Obs) *h.Fail {
 	if c.GenFeat["excluded_signal_in_try_body"] > 0 {
 		o.Class("generator_kept_signals_out_of_a_try_body")
 	}
-	for _, k := range []string{"loop_cfor_without_condition", "loop_cfor_without_init", "loop_cfor_without_post", "loop_cfor_constant_condition_without_post", "loop_cfor_without_condition_and_post", "defer", "try", "switch_subject_nil", "switch_subject_str", "loop_forin_map_keys_printing_alike", "stray_break_or_continue_in_callee"} {
+	for _, k := range []string{"loop_cfor_without_condition", "loop_cfor_without_init", "loop_cfor_without_post", "loop_cfor_constant_condition_without_post", "loop_cfor_without_condition_and_post", "loop_cfor_condition_only", "loop_cfor_condition_only_false_at_start", "loop_cfor_post_only", "loop_cfor_empty_header", "defer", "try", "switch_subject_nil", "switch_subject_str", "loop_forin_map_keys_printing_alike", "stray_break_or_continue_in_callee"} {
 		if c.GenFeat[k] > 0 {
 			o.Class("gen_" + k)
 		}
@@ -89,7 +89,7 @@ func TestC08(t *testing.T) {
 		profileErrors.MaxDepth++
 		profileErrors.MaxStmts += 2
 	}
-	c.Rule("constructive generator, profile 'control': if/else-if/else, switch with multi-expression cases and default at any position, for{}, for cond{}, C-style loops, for-in over lists and maps, nested <=5 deep inside functions, break/continue/return (0,1,2 values) at every position, conditions from every truthiness class; non-trivial = a break/continue/return crossed >=1 enclosing if/else/switch/try block before being consumed; distinct by source text")
+	c.Rule("constructive generator, profile 'control': if/else-if/else, switch with multi-expression cases and default at any position, for{}, for cond{}, C-style loops (all eight header forms: each of init, condition and post present or absent), for-in over lists and maps, nested <=5 deep inside functions, break/continue/return (0,1,2 values) at every position, conditions from every truthiness class; non-trivial = a break/continue/return crossed >=1 enclosing if/else/switch/try block before being consumed; distinct by source text")
 	h.Run(c, "control", c.N(12000, 120000), gen, oracle)
 	c.Rule("control_errors: the same generator with throw / runtime errors / try-catch-finally / defer statements switched on (profile 'control+errors'): the top-level program and the functions register deferred calls before they return, loops are left by break/continue while errors are raised and caught; same oracle, same non-triviality rule")
 	h.Run(c, "control_errors", c.N(8000, 80000), genErrors, oracle)
